@@ -17,9 +17,12 @@
                        computes what the unlocked sequential semantics computes, calls in program order;
     asyncio            `C09_async_flat` = `C07_flat_partial`;
     hierarchy          `C09_nested_flat`: TODO — needs the nested engine model (`Model/Nested*.lean`, property
-                       C02, being built); until then the hierarchical classes are decided by the
-                       differential only (harness/props/c09.py), which on the present tree reports the
-                       listed finding F-C09-hsm-retrigger-exit.
+                       C02, being built).  Until then: the depth-1 collapse of the one function that
+                       differs, `NestedTransition._change_state` (`Model/HsmFlat.lean`, tied to
+                       HierarchicalMachine by trace equality): `C09_hsm_flat_partial` (scripts without
+                       re-entrant calls), `C09_hsm_flat_counterexample` (the full-strength statement is
+                       false: listed finding F-C09-hsm-retrigger-exit); everything else about the
+                       hierarchical classes is decided by the differential (harness/props/c09.py).
 
   and, over the table that `harness/extract_tables.py` regenerates from the LIVE classes before every
   build (`Generated/Tables.lean`), by `decide`:
@@ -40,6 +43,7 @@ import Generated.Tables
 import Proofs.C09
 import Proofs.C09Locked
 import Props.C07
+import Proofs.C09Hsm
 
 namespace TM
 open Gen
@@ -259,13 +263,62 @@ theorem C09_async_graph_flat {γ : Type} (H : Hooks γ) (cfg : Cfg) (sc : Script
 /-! ## hierarchy
 
 TODO `C09_nested_flat : Nested.run (embed cfg) = Core.run cfg` — HSM dispatch on depth-1 trees collapses
-to the flat step.  Needs `Model/Nested*.lean` (property C02).  NOT proved here; decided by the
-differential only.  The differential shows that the statement at full strength is FALSE on the
-present tree (finding F-C09-hsm-retrigger-exit, known_findings.json): when a callback of an event
-re-triggers an event that moves the same model before the outer transition's state change
-(unqueued), `NestedTransition._change_state` resolves the states to exit from the model's
-configuration at that moment, whereas `Transition._change_state` exits `transition.source`
-regardless.  The theorem, its `_partial` form (exclusion: the model is still in `transition.source`
-when `_change_state` starts) and the `_counterexample` belong here once the nested model exists. -/
+to the flat step.  Needs the nested engine model `Model/Nested*.lean` (property C02, being built).  NOT
+proved here.
+
+What IS modelled is the depth-1 collapse of the one function in which the hierarchical classes were
+found to differ from `Machine` on flat configurations, `NestedTransition._change_state`
+(`Model/HsmFlat.lean`; tied to HierarchicalMachine by trace equality on every generated case, request
+`hflat`): the destination is resolved first, and the states that are exited are those of the model's
+configuration AT THAT MOMENT, not `transition.source`.  The two coincide unless a callback of the event
+has moved the model in the meantime. -/
+
+open HsmFlat in
+/-- **C09 for the hierarchical classes at full strength (kept visible; FALSE for the code as it is,
+finding F-C09-hsm-retrigger-exit).** -/
+def C09_hsm_flat_statement : Prop :=
+  ∀ (cfg : Cfg) (sc : Script) (qmax fuel : Nat) (h : List Cmd) (s : St),
+    DestsRegistered cfg → HsmFlat.runHistory sc cfg qmax fuel h s = runHistory sc cfg qmax fuel h s
+
+open HsmFlat in
+/-- **C09 for the hierarchical classes (partial).**  Exclusion: scripts whose callbacks issue no
+re-entrant API calls (then the model is still in `transition.source` when `_change_state` starts).
+For every configuration with registered destinations, every such script — callbacks and conditions
+may return or raise anything —, every history (triggers, may_, dispatch, add / remove model), queued
+or not: the hierarchical engine on a flat configuration IS the flat engine. -/
+theorem C09_hsm_flat_partial (cfg : Cfg) (sc : Script) (qmax fuel : Nat) (h : List Cmd) (s : St)
+    (hD : DestsRegistered cfg) (hC : NoCmds sc) :
+    HsmFlat.runHistory sc cfg qmax fuel h s = runHistory sc cfg qmax fuel h s :=
+  HsmFlat.C09P.runHistory_eq sc cfg hC hD qmax fuel h s
+
+/-- the witness (corpus/C09/retrigger_exit.json, shrunk by the harness): `e0 : s0 → s2`, its prepare
+callback 17 triggers `e0` again on the same model at its first invocation, unqueued; `s2` has the exit
+callback 31 -/
+def hsmWitnessCfg : Cfg :=
+  { states := [{ name := 0 }, { name := 2, onExit := [31] }],
+    events := [(0, [{ source := 0, dest := some 2, prepare := [17] }])], initial := 0 }
+
+def hsmWitnessScript : Script := fun c k => if c = 17 ∧ k = 0 then { cmds := [.trigger 0 0] } else {}
+
+theorem C09_hsm_flat_counterexample : ¬ C09_hsm_flat_statement := by
+  intro h
+  have := congrArg (Option.map fun s => s.log)
+    (h hsmWitnessCfg hsmWitnessScript 8 3 [.trigger 0 0] (St.init hsmWitnessCfg [0]) (by decide))
+  revert this
+  decide
+
+/-- what the two engines do on the witness: the inner event moves the model to `s2`; the outer
+transition then exits `s0` on `Machine` (nothing to see) but `s2` — callback 31 — on the hierarchical
+classes; both end in `s2` -/
+example :
+    ((runHistory hsmWitnessScript hsmWitnessCfg 8 3 [.trigger 0 0] (St.init hsmWitnessCfg [0])).map fun s =>
+      (C07.callsOf s.log, s.stateOf 0)) = some ([(.prepare, 17), (.prepare, 17)], 2) ∧
+    ((HsmFlat.runHistory hsmWitnessScript hsmWitnessCfg 8 3 [.trigger 0 0] (St.init hsmWitnessCfg [0])).map fun s =>
+      (C07.callsOf s.log, s.stateOf 0)) = some ([(.prepare, 17), (.prepare, 17), (.onExit, 31)], 2) := by
+  decide
+
+/-- non-vacuity of the partial theorem: a configuration with callbacks in every stage and a raising
+condition meets its hypotheses -/
+example : HsmFlat.DestsRegistered exCfg9 ∧ HsmFlat.DestsRegistered hsmWitnessCfg := by decide
 
 end TM
